@@ -2,7 +2,10 @@
 
 package report
 
-import "github.com/google/pprof/internal/graph"
+import (
+	"github.com/google/pprof/internal/graph"
+	"github.com/google/pprof/profile"
+)
 
 func init() {
 	vRegister("VerifC05Trim", VerifC05Trim)
@@ -199,4 +202,83 @@ func VerifC09NodeCount() {
 	g, _, _, _ := rpt.newTrimmedGraph()
 	vReach("C09.nodecount:returned")
 	vObserve(len(g.Nodes) >= 0)
+}
+
+func init() { vRegister("VerifC05TrimAddresses", VerifC05TrimAddresses) }
+
+// VerifC05TrimAddresses: trimming at address granularity, where one function
+// has several entries (two addresses, one of them unknown = 0): the entries
+// shown are exactly those at or above the node cutoff, each with its untrimmed
+// flat and cum, and no edge refers to a removed entry.
+func VerifC05TrimAddresses() {
+	m := &profile.Mapping{ID: 1, Start: 0x1000, Limit: 0x9000, File: "bin", HasFunctions: true}
+	fmain := &profile.Function{ID: 1, Name: "main", SystemName: "main", Filename: "m.go"}
+	fwork := &profile.Function{ID: 2, Name: "work", SystemName: "work", Filename: "w.go"}
+	ftiny := &profile.Function{ID: 3, Name: "tiny", SystemName: "tiny", Filename: "t.go"}
+	lmain := &profile.Location{ID: 1, Mapping: m, Address: 0x1000, Line: []profile.Line{{Function: fmain}}}
+	lworkA := &profile.Location{ID: 2, Mapping: m, Address: 0x1010, Line: []profile.Line{{Function: fwork}}}
+	lwork0 := &profile.Location{ID: 3, Line: []profile.Line{{Function: fwork}}} // address unknown
+	ltiny := &profile.Location{ID: 4, Mapping: m, Address: 0x1020, Line: []profile.Line{{Function: ftiny}}}
+	locs := []*profile.Location{lmain, lworkA, lwork0, ltiny}
+	if vChoice("locorder", 2) == 1 {
+		locs = []*profile.Location{lmain, lwork0, lworkA, ltiny}
+	}
+	leaves := []*profile.Location{lworkA, lwork0, ltiny}
+	p := &profile.Profile{
+		SampleType: []*profile.ValueType{{Type: "samples", Unit: "count"}},
+		Mapping:    []*profile.Mapping{m}, Function: []*profile.Function{fmain, fwork, ftiny}, Location: locs,
+	}
+	var w [3]int64
+	for i := range w {
+		w[i] = vInt64("w" + string(rune('0'+i)))
+		vAssume(w[i] >= 1)
+		vAssume(w[i] <= 100)
+		p.Sample = append(p.Sample, &profile.Sample{Location: []*profile.Location{leaves[i], lmain}, Value: []int64{w[i]}})
+	}
+	fractions := []float64{0.25, 0.5, 0.125}
+	o := &Options{
+		OutputFormat: Text, SampleType: "samples", SampleUnit: "count",
+		SampleValue:  func(v []int64) int64 { return v[0] },
+		NodeFraction: fractions[vChoice("nodefraction", 3)],
+	}
+	rpt := New(p, o)
+	total := w[0] + w[1] + w[2]
+	cutoff := vAbs(int64(float64(total) * o.NodeFraction))
+	g, _, _, _ := rpt.newTrimmedGraph()
+	vReach("C05.trimaddr:done")
+	// reference: entries keyed by (name, address)
+	type key struct {
+		name string
+		addr uint64
+	}
+	refCum := map[key]int64{{"main", 0x1000}: total, {"work", 0x1010}: w[0], {"work", 0}: w[1], {"tiny", 0x1020}: w[2]}
+	refFlat := map[key]int64{{"main", 0x1000}: 0, {"work", 0x1010}: w[0], {"work", 0}: w[1], {"tiny", 0x1020}: w[2]}
+	shown := map[key]bool{}
+	in := map[*graph.Node]bool{}
+	for _, n := range g.Nodes {
+		k := key{n.Info.Name, n.Info.Address}
+		c, ok := refCum[k]
+		if !ok {
+			vAssert(false, "C05.trimaddr.unknown: an entry is shown that no sample has")
+			return
+		}
+		shown[k] = true
+		in[n] = true
+		vAssert(vAnd(n.Cum == c, n.Flat == refFlat[k]), "C05.trimaddr.numbers: a shown entry's flat or cum differs from the untrimmed report")
+		vAssert(c >= cutoff, "C05.trimaddr.below-cutoff: an entry whose cum is below the node cutoff is shown")
+	}
+	for k, c := range refCum {
+		if !shown[k] {
+			vAssert(c < cutoff, "C05.trimaddr.removed: an entry at or above the cutoff was removed")
+		}
+	}
+	for _, n := range g.Nodes {
+		for dst := range n.Out {
+			vAssert(in[dst], "C05.trimaddr.edge: an edge refers to a removed entry")
+		}
+		for src := range n.In {
+			vAssert(in[src], "C05.trimaddr.edge: an edge refers to a removed entry")
+		}
+	}
+	vObserve(len(g.Nodes))
 }
